@@ -52,6 +52,7 @@ class FnTarget:
         self.spec = None
         self.head = None
         self.loops = {}
+        self.loop_iters = {}   # loop ordinal -> name of the Verus ghost iterator (`for p in NAME: e`)
         self.hints = []
         self.omit = False
         self.canary = True
@@ -186,7 +187,12 @@ class Assembler:
                         elif d == 'prefix':
                             cur_field = ('prefix',)
                         elif d.startswith('loop '):
-                            cur_field = ('loop', int(d[5:].strip()))
+                            lp = d[5:].split()
+                            cur_field = ('loop', int(lp[0]))
+                            for opt in lp[1:]:
+                                if not re.match(r'^iter=[A-Za-z_]\w*$', opt):
+                                    raise UnitSyntax('line %d: bad loop option %r' % (i + 1, opt))
+                                blk.cur.loop_iters[int(lp[0])] = opt[5:]
                         elif d.startswith('hint '):
                             cur_field = ('hint', d[5:].strip())
                         elif d == 'keep-attrs':
@@ -303,6 +309,24 @@ class Assembler:
                             elif tt.text == '{' and depth == 0:
                                 break
                         j += 1
+                    if tgt and loop_no in tgt.loop_iters:
+                        # R7: name the Verus ghost iterator of a `for` loop: `for p in e` -> `for p in NAME: e`
+                        # (ghost-only label, erased by Verus; needed to state invariants about the position)
+                        kin = None
+                        if t.text == 'for':
+                            d2 = 0
+                            for q in range(k + 1, j):
+                                if st[q].kind == 'punct' and st[q].text in '([{':
+                                    d2 += 1
+                                elif st[q].kind == 'punct' and st[q].text in ')]}':
+                                    d2 -= 1
+                                elif d2 == 0 and st[q].kind == 'ident' and st[q].text == 'in':
+                                    kin = q
+                                    break
+                        if kin is None:
+                            raise AnchorLost('loop #%d of fn %s is not a `for .. in` loop (iter= given) in %s' % (loop_no, tgt.name, blk.relpath))
+                        edits.append((st[kin].end, st[kin].end, ' %s:' % tgt.loop_iters[loop_no]))
+                        self.rewrites.append('R7 %s:%d for-loop ghost iterator named %s' % (blk.relpath, src.line_of(t.start), tgt.loop_iters[loop_no]))
                     if tgt and loop_no in tgt.loops:
                         edits.append((st[j].start, st[j].start, '\n' + tgt.loops[loop_no] + '\n'))
                         seen_loops.add(loop_no)
@@ -382,7 +406,9 @@ class Assembler:
                             k = kc + 1
                         else:
                             k += 1
-        edits.sort()
+        # stable sort on the offsets only: edits at the same offset keep their insertion order
+        # (ret-naming ')' before the spec text of a body-less trait method)
+        edits.sort(key=lambda e: (e[0], e[1]))
         for (s1, e1, _), (s2, e2, _) in zip(edits, edits[1:]):
             if s2 < e1:
                 raise UnitSyntax('overlapping edits in %s' % blk.relpath)
